@@ -70,24 +70,45 @@ def run(case, ctx):
         tok = tc.make_tok(cfg)
     except Exception as e:
         return {"nontrivial": False, "fails": [fail("tokeniser_construction_raises", f"{type(e).__name__}: {e}")], "shape": ("ctor",)}
-    bins = list(tok.velocity_bins)
     if tok.dictionary_size != len(tok.dictionary):
         fails.append(fail("vocabulary_size_mismatch", (tok.dictionary_size, len(tok.dictionary))))
     seqs = [gen.build_seq(t) for t in piece["tracks"]]
-    src = [obs(s) for s in seqs]
-    D = max(o["dur"] for o in src)
     LOG.n("c01.flags." + "".join("1" if x else "0" for x in cfg["flags"]))
     shape = (st, "".join("1" if x else "0" for x in cfg["flags"]), cfg["tracks"], cfg["bins"], len(piece["ts"]))
+    src_ts = [(t, (n, d)) for (t, n, d) in piece["ts"]]
+    f2, res = compare_roundtrip(tok, seqs, src_ts, info=piece.get("info"))
+    fails += f2
+    if res is None:
+        return {"nontrivial": False, "fails": fails, "shape": shape}
+    src, D, Dout, toks, grid = res["src"], res["D"], res["Dout"], res["toks"], res["grid"]
+    nn = sum(len(s["notes"]) for s in src)
+    sigchange = len(piece["ts"]) > 1
+    if sigchange:
+        LOG.n("c01.signature_change")
+    barlines = set(g[0] for g in grid[1:])
+    onsets = sorted(set(n[2] for s in src for n in s["notes"]))
+    crossing = any(any(a < b < c for b in barlines) for a, c in zip([0] + onsets, onsets + [D]))
+    return {"nontrivial": nn >= 2 and (crossing or sigchange), "fails": fails, "shape": shape,
+            "observed": {"tokens": len(toks), "notes": nn, "bars": len(grid), "duration": (D, Dout), "first_tokens": toks[:8]}}
+
+
+def compare_roundtrip(tok, seqs, src_ts, info=None):
+    """tokenise -> encode -> decode -> detokenise on copies of `seqs`; returns (fails, observations or None)"""
+    from vmon.monitors import LOG
+    fails = []
+    bins = list(tok.velocity_bins)
+    src = [obs(s) for s in seqs]
+    D = max(o["dur"] for o in src)
     try:
         toks = tok.tokenise([s.copy() for s in seqs])
     except Exception as e:
-        fails.append(fail(f"tokenise_raises.{type(e).__name__}", None, w={"msg": str(e)[:200], "info": piece.get("info")}))
-        return {"nontrivial": False, "fails": fails, "shape": shape}
+        fails.append(fail(f"tokenise_raises.{type(e).__name__}", None, w={"msg": str(e)[:200], "info": info}))
+        return fails, None
     try:
         ids = tok.encode(toks)
     except KeyError as e:
         fails.append(fail("encode_keyerror", str(e)))
-        return {"nontrivial": False, "fails": fails, "shape": shape}
+        return fails, None
     back = tok.decode(ids)
     if back != toks or not all(type(x) is int for x in ids):
         fails.append(fail("decode_encode_not_identity", None))
@@ -95,7 +116,7 @@ def run(case, ctx):
         out = tok.detokenise(back)
     except Exception as e:
         fails.append(fail(f"detokenise_raises.{type(e).__name__}", str(e)[:200]))
-        return {"nontrivial": False, "fails": fails, "shape": shape}
+        return fails, None
     LOG.n("c01.roundtrips_compared")
     if len(out) != len(seqs):
         fails.append(fail("track_count", (len(seqs), len(out))))
@@ -109,11 +130,10 @@ def run(case, ctx):
         oo = obs(o)
         got = sorted((p, on, d, v) for (c, p, on, d, v) in oo["notes"])
         LOG.n("c01.notes_compared", len(exp))
-        if got != sorted(exp, key=lambda x: tuple(-1 if y is None else y for y in x)):
-            e2 = sorted(exp, key=lambda x: tuple(-1 if y is None else y for y in x))
+        e2 = sorted(exp, key=lambda x: tuple(-1 if y is None else y for y in x))
+        if got != e2:
             fails.append(fail("notes", {"track": k, "missing": [x for x in e2 if x not in got][:3], "extra": [x for x in got if x not in e2][:3]}))
     # bar grid: signatures in force + caps at bar tokens
-    src_ts = [(t, (n, d)) for (t, n, d) in piece["ts"]]
     grid = orc.bar_grid(src_ts, D)
     o0 = obs(out[0])
     out_ts = [(e[0], (e[5], e[6])) for e in o0["non"] if e[1] == orc.TS]
@@ -137,12 +157,35 @@ def run(case, ctx):
     expD = ends[-1] if ends else 0
     if Dout != expD:
         fails.append(fail("duration", {"expected": expD, "got": Dout, "source": D}))
-    nn = sum(len(s["notes"]) for s in src)
-    sigchange = len(piece["ts"]) > 1
-    if sigchange:
-        LOG.n("c01.signature_change")
-    barlines = set(g[0] for g in grid[1:])
-    onsets = sorted(set(n[2] for s in src for n in s["notes"]))
-    crossing = any(any(a < b < c for b in barlines) for a, c in zip([0] + onsets, onsets + [D]))
-    return {"nontrivial": nn >= 2 and (crossing or sigchange), "fails": fails, "shape": shape,
-            "observed": {"tokens": len(toks), "notes": nn, "bars": len(grid), "duration": (D, Dout), "first_tokens": toks[:8]}}
+    return fails, {"src": src, "D": D, "Dout": Dout, "toks": toks, "grid": grid, "out": out}
+
+
+def _corpus_body(rng, k):
+    from vmon import corpus
+    from vmon.monitors import LOG
+    from scoda.elements.bar import Bar
+    from scoda.sequences.sequence import Sequence
+    fs = corpus.files()
+    f = fs[k % len(fs)]
+    name, seqs = corpus.pipeline_piece(f)
+    if k >= len(fs):
+        d = max(s.get_sequence_duration() for s in seqs)
+        cut = rng.randrange(192, max(193, min(d, 4000)))
+        seqs = [s.split([cut])[0] if s.get_sequence_duration() > cut else s for s in seqs]
+    tb = Sequence.sequences_split_bars(seqs, 0)
+    proc = [Bar.to_sequence([b for b in trk]) for trk in tb]
+    cfg = tc.rand_cfg(rng, i=(k // len(fs)) % 16)
+    cfg.update(tracks=len(proc), pitch=[21, 108], steps=None, values=None)
+    cfg["bins"] = rng.choice([1, 2, 4, 8])
+    tok = tc.make_tok(cfg)
+    o0 = obs(proc[0])
+    src_ts = [(e[0], (e[5], e[6])) for e in o0["non"] if e[1] == orc.TS]
+    fails, res = compare_roundtrip(tok, proc, src_ts)
+    for fl in fails:
+        LOG.rec("C01", "corpus_roundtrip", fl["claim"], False, fl.get("w"))
+    return {"file": name, "cfg": {k2: cfg[k2] for k2 in ("flags", "bins", "tracks")}, "bars": len(tb[0])}, res is not None
+
+
+def phases(tier):
+    from vmon import corpus
+    return [("corpus", corpus.phase(7, 7 * 48, _corpus_body))]
